@@ -100,7 +100,7 @@ struct Inner
 };
 
 // members of Zoo in Serialize order (bit positions of Zoo::saveMask)
-static const char* const kZooOrder[] = { "base", "color", "emap", "dur", "durMs", "tp", "tpMs", "vec", "vbool", "deq", "lst", "fwd", "arr", "val", "que", "stk", "pq", "set", "mset", "uset", "umset", "map", "imap", "mmap", "umap", "ummap", "mapOnlyExist", "mapUpdate", "mapUpdateOpt", "opt", "optStr", "uptr", "sptr", "uobj", "bits", "tup", "pr", "atom", "s", "s16", "s32", "ws", "vv", "mv", "vo", "vobj", "bin", "rows" };
+static const char* const kZooOrder[] = { "base", "color", "emap", "dur", "durMs", "tp", "tpMs", "vec", "vbool", "deq", "lst", "fwd", "arr", "val", "que", "stk", "pq", "set", "mset", "uset", "umset", "map", "imap", "mmap", "umap", "ummap", "mapOnlyExist", "mapUpdate", "mapUpdateOpt", "opt", "optStr", "uptr", "sptr", "uobj", "bits", "tup", "pr", "atom", "s", "s16", "s32", "ws", "vv", "mv", "vo", "vobj", "bin", "rows", "voObj", "vuObj", "vsObj", "vtup" };
 
 struct ZooBase
 {
@@ -157,6 +157,12 @@ struct Zoo : ZooBase
 	std::vector<Inner> vobj;
 	std::vector<unsigned char> bin;
 	std::vector<Row> rows;   // the CSV root; also saved as a member in tree archives
+	// sequence containers whose items are wrappers around objects, and tuples
+	std::vector<std::optional<Inner>> voObj;
+	std::vector<std::unique_ptr<Inner>> vuObj;
+	std::list<std::shared_ptr<Inner>> vsObj;
+	std::vector<std::tuple<int32_t, std::string>> vtup;
+	std::vector<std::tuple<std::optional<int32_t>, std::optional<std::string>>> vtupAlt;   // saving only (altSetDoc): null components
 	// the CSV root can be any sequence container of rows (csvRoot: 0 vector, 1 list, 2 deque, 3 forward_list)
 	int csvRoot = 0;
 	std::list<Row> rowsList;
@@ -242,6 +248,10 @@ struct Zoo : ZooBase
 		F(KeyValue("vobj", vobj));
 		F(KeyValue("bin", bin));
 		F(KeyValue("rows", rows));
+		F(KeyValue("voObj", voObj));
+		F(KeyValue("vuObj", vuObj));
+		F(KeyValue("vsObj", vsObj));
+		if (!A::IsLoading() && altSetDoc) { F(KeyValue("vtup", vtupAlt)); } else { F(KeyValue("vtup", vtup)); }
 	}
 };
 
